@@ -355,6 +355,27 @@ mod verif_kani_state {
         kani::cover!(n == 7);
     }
 
+    // ------------------------------------------------------------------ the LINKED smbus_pec::pec equals the bitwise CRC-8 of C03
+    // (cross-check of R4: Verus proves the contract on the macro expansion for all lengths; this checks the compiled
+    // dependency itself, bounded in the length)
+    fn pec_matches<const L: usize>() {
+        let buf: [u8; L] = kani::any();
+        let len: usize = kani::any();
+        kani::assume(len <= L);
+        assert!(smbus_pec::pec(&buf[0..len]) == crc8(&buf[0..len]));
+        kani::cover!(len == L);
+    }
+    #[kani::proof]
+    #[kani::unwind(10)]
+    fn k_pec_matches_crc8() {
+        pec_matches::<6>();
+    }
+    #[kani::proof]
+    #[kani::unwind(18)]
+    fn k_pec_matches_crc8_long() {
+        pec_matches::<16>();
+    }
+
     // ------------------------------------------------------------------ K.eq: derived PartialEq = equality of variants
     #[kani::proof]
     fn k_eq_message_type() {
